@@ -30,6 +30,14 @@ pub mod stdspecs {
     pub broadcast axiom fn axiom_ref_items_vec<'a, T>(s: &'a Vec<T>)
         ensures #[trigger] ref_items::<T, &'a Vec<T>>(s) == s@;
 
+    // ---- Cow<[u8]> from a borrowed slice / an owned vector ------------------------------------------------------
+    pub uninterp spec fn cow_bytes<T: Clone>(c: Cow<'_, [T]>) -> Seq<T>;
+    pub uninterp spec fn cow_borrowed<T: Clone>(c: Cow<'_, [T]>) -> bool;
+    pub assume_specification<'a, T: Clone>[ <Cow<'a, [T]> as From<&'a [T]>>::from ](s: &'a [T]) -> (r: Cow<'a, [T]>)
+        ensures cow_bytes(r) == s@, cow_borrowed(r);
+    pub assume_specification<'a, T: Clone>[ <Cow<'a, [T]> as From<Vec<T>>>::from ](v: Vec<T>) -> (r: Cow<'a, [T]>)
+        ensures cow_bytes(r) == v@, !cow_borrowed(r);
+
     // ---- String::from_utf8_lossy / Cow<str> -> String ------------------------------------------------
     /// String::from_utf8_lossy as an uninterpreted function of the bytes
     pub uninterp spec fn lossy(b: Seq<u8>) -> Seq<char>;
